@@ -49,6 +49,8 @@ var PortAlpha = []*[]wm.APort{nil,
 	ports(),
 	// a range of exactly one port, next to a wider one on another protocol
 	ports(wm.APort{Kind: "range", Proto: "TCP", Num: 80, End: 80}, wm.APort{Kind: "range", Proto: "UDP", Num: 53, End: 54}),
+	// namedPort: "" names no port at all (w2 has a container port without a name)
+	ports(wm.APort{Kind: "named", Name: ""}),
 }
 var Actions = []string{"Allow", "Deny", "Pass"}
 
@@ -75,7 +77,7 @@ func Base() *wm.World {
 		NSs: []wm.NS{{Name: "ns1", Labels: map[string]string{"team": "a"}, HasObj: true}, {Name: "ns2", Labels: map[string]string{"team": "b"}, HasObj: true}},
 		WLs: []wm.Workload{
 			{Kind: "Deployment", NS: "ns1", Name: "w1", Labels: map[string]string{"app": "a"}, Ports: []wm.CPort{{Name: "http", Num: 80}, {Name: "dns", Num: 53, Proto: "UDP"}}, Replicas: 1},
-			{Kind: "Deployment", NS: "ns1", Name: "w2", Labels: map[string]string{"app": "b"}, Ports: []wm.CPort{{Name: "http", Num: 8080}}, Replicas: 1},
+			{Kind: "Deployment", NS: "ns1", Name: "w2", Labels: map[string]string{"app": "b"}, Ports: []wm.CPort{{Name: "http", Num: 8080}, {Num: 9090}}, Replicas: 1},
 			// same kind and name as the first workload, in another namespace
 			{Kind: "Deployment", NS: "ns2", Name: "w1", Labels: map[string]string{"app": "a"}, Ports: []wm.CPort{{Name: "http", Num: 88}}, Replicas: 1},
 		}}
